@@ -6,7 +6,8 @@ import HeimdallModel.Model.MechTypes
   observable unchanged at every later point, whatever the other threads do in between (executions of any objects,
   creations of further variants, in any interleaving).
 * **Local**: a variant shows, field by field, the prototype's value unless the rule's own configuration sets the
-  field (`observed`); which other variants exist, existed before or are being created does not matter.
+  field (`observed`: the own setting always wins); which other variants exist, existed before or are being created
+  does not matter.
 * **RaceFree**: no two threads are ever about to access the same cell with one of them writing.
 -/
 namespace Heimdall.Spec.Overlay
@@ -26,17 +27,20 @@ def RaceFree (c : Config V Ov) : Prop := ∀ i j, ¬ Conflict c i j
 
 /-! ## the overlay of one field, for the heimdall configuration language -/
 
-/-- the rule sets `key` to something the code can tell from "not set" -/
-def sets (ov : Override) (key : Key) (zeroOk : Bool) : Prop :=
-  entriesOf ov.entries [key] ≠ [] ∧ (zeroOk = true ∨ ∃ e ∈ entriesOf ov.entries [key], isZero e.2 = false)
+/-- the rule sets `key` -/
+def sets (ov : Override) (key : Key) : Prop := entriesOf ov.entries [key] ≠ []
 
-instance (ov : Override) (key : Key) (zeroOk : Bool) : Decidable (sets ov key zeroOk) := by
-  unfold sets; exact inferInstance
+instance (ov : Override) (key : Key) : Decidable (sets ov key) := by unfold sets; exact inferInstance
 
-/-- what a rule must observe for a field that can be overridden under `key`: its own setting if there is one,
-otherwise the catalogue's -/
-def observed (key : Key) (zeroOk : Bool) (cat : Entries) (ov : Override) : Entries :=
-  if sets ov key zeroOk then entriesOf ov.entries [key] else cat
+/-- what a rule must observe for a field that can be overridden under `key`: **its own setting if it has one —
+whatever the value, also an empty string, an empty list or `0s` — otherwise the catalogue's** -/
+def observed (key : Key) (cat : Entries) (ov : Override) : Entries :=
+  if sets ov key then entriesOf ov.entries [key] else cat
+
+/-- the rule's setting for `key` is one the code can tell from "not set": the field is decoded into a pointer
+(`zeroOk`) or the value is not the zero value -/
+def Expressible (ov : Override) (key : Key) (zeroOk : Bool) : Prop :=
+  zeroOk = true ∨ ∃ e ∈ entriesOf ov.entries [key], isZero e.2 = false
 
 /-- entry-wise lookup (`values`): the last entry of a key counts -/
 def lookupLast (es : Entries) (k : Key) : Option String :=
